@@ -97,7 +97,7 @@ Definition dec_strat (j : json) : option strat :=
   end.
 
 Definition decide (O : oracles) (St : strat) (base : json) (ld rd : diff) : res (list decision) :=
-  decide_merge_with_diff O nb_config St no_hooks chunks_guard entry_eq_strict base ld rd.
+  decide_merge_with_diff O nb_config St no_hooks chunks_guard entry_eq_strict conflict_assert_strict base ld rd.
 
 (* decide_merge_with_diff(base, _, _, local_diff, remote_diff, strategies) *)
 Definition api_merge_decide (O : oracles) (st base ld rd : json) : json :=
